@@ -1,8 +1,8 @@
 package c03
 
 import (
-	"encoding/hex"
 	"context"
+	"encoding/hex"
 	"testing"
 
 	"github.com/tetratelabs/wazero"
